@@ -1,4 +1,3 @@
 #include "common.hpp"
 namespace vh {
-std::string run_adi_case(const vj::value&) { throw std::runtime_error("adi: not built"); }
 }
